@@ -13,3 +13,9 @@ Proof.
   pose proof (Cn2_pos (inner d x y)). split; lra.
 Qed.
 Print Assumptions C20_geometric_range.
+
+(* the bound 0 is attained: when the optimiser returns the state itself (a product state is its own closest product state),
+   the reported value is exactly 0 *)
+Theorem C20_geometric_zero_at_state : forall (d : nat) (x : nat -> C), nrm2 d x = 1 -> 1 - Cn2 (inner d x x) = 0.
+Proof. intros d x Hx. rewrite inner_self, Hx, Cn2_RtoC. lra. Qed.
+Print Assumptions C20_geometric_zero_at_state.
